@@ -40,7 +40,7 @@ var c20Derived = map[string]bool{c20Medians: true, c20Strat: true}
 
 func init() {
 	register("C20", "other", "T7 Pairing (dirty flag), T4 GuardedBy, T6 WhoMayWrite, T2 Dominates (loop exit), AST provenance of index roles, T15 ConstRelation (go/constant), normalised comparators, polynomial normal form for Matrix.Row",
-		"Decides the shape the indexer's medians and metrics depend on. Dirty flag: every store into a source field of QuorumIndexer (globalMatrix, selfParentSeqs, validators, dagi, diffMetricFn; directly, through Matrix.Row, through a local alias or copy()) is followed by dirty = true on every path to return; the derived fields globalMedianSeqs and searchStrategy are written only by recacheState; every read of them elsewhere is reached only after recacheState ran or over the dirty == false edge, also after any dirtying statement of the same function; dirty is cleared only in recacheState, as its last effect, after the complete loop that stores a median for every validator index 0..validators.Len()-1 and after searchStrategy was replaced by a MetricStrategy over a fresh MetricFnCache of the indexer's own GetMetricOf; the constructor starts dirty. Index roles: ProcessEvent writes globalMatrix.Row(x)[y] = seqOf(vecClock.Get(x)) for every validator index x (full counted loop), with vecClock = dagi.GetMergedHighestBefore(event.ID()) and y = validators.GetIdx(event.Creator()), and selfParentSeqs[x] gets the same value only under the selfEvent parameter; Matrix.Row(i) is buffer[i*columns:(i+1)*columns] (polynomial identity) and NewMatrix sizes the buffer rows*cols; recacheState pairs Row(subject)[i] with GetWeightByIdx(i) for the same observer i over all observers, sorts by seq strictly descending, takes wmedian.Of(pairs, validators.Quorum()) of the freshly filled and sorted slice and stores its seq at globalMedianSeqs[subject]; wmedian.Of visits its values in slice order from the first (range, or for i := 0; i < len(values); i++), accumulates the current element's Weight() from zero and returns the current element exactly on the first accumulated weight >= stop, nothing else returns; the per-subject median computation, the store of the median, the strategy replacement and dirty = true may each live in a private helper method called on the same receiver (the helper's parameter is bound to the caller's loop index; a helper counts as the store/assignment it performs on every path, and derived state may be written by a helper only if all its call sites are in recacheState); weightedSeq.Weight returns its weight field. seqOf returns Seq() unless IsForkDetected(), then the constant MaxUint32/2-1 = 2^31-2, and go/constant confirms sentinel >= K-1 where K is the constant of basiccheck's `Seq >= K` rejection (K = MaxInt32-1, so admissible Seq <= 2^31-3 < sentinel). GetMetricOf sums (from zero, += over the full validator loop) diffMetricFn called with, under the parameter names of DiffMetricFn, median = globalMedianSeqs[i], current = selfParentSeqs[i], update = seqOf(dagi.GetMergedHighestBefore(id).Get(i)), validatorIdx = i. NOT decided: numeric equality of the stored median with the definition over all inputs (it follows from the decided shape by the descending-prefix argument, which is not machine-checked), overflow of the Metric sum, staleness of a SearchStrategy value kept by a caller across ProcessEvent, mutation of the slices handed out by GetGlobalMatrix/GetSelfParentSeqs/GetGlobalMedianSeqs by callers, and that vecClock sequences of processed events respect the basiccheck bound (assumed).",
+		"Decides the shape the indexer's medians and metrics depend on. Dirty flag: every store into a source field of QuorumIndexer (globalMatrix, selfParentSeqs, validators, dagi, diffMetricFn; directly, through Matrix.Row, through a local alias or copy()) is followed by dirty = true on every path to return; the derived fields globalMedianSeqs and searchStrategy are written only by recacheState; every read of them elsewhere is reached only after recacheState ran (directly, or inside a helper method called on the same receiver whose every path to return runs recacheState or takes the dirty == false edge and does not dirty the state afterwards — an extracted `if h.dirty { h.recacheState() }`) or over the dirty == false edge, also after any dirtying statement of the same function; dirty is cleared only in recacheState, as its last effect, after the complete loop that stores a median for every validator index 0..validators.Len()-1 and after searchStrategy was replaced by a MetricStrategy over a fresh MetricFnCache of the indexer's own GetMetricOf; the constructor starts dirty. Index roles: ProcessEvent writes globalMatrix.Row(x)[y] = seqOf(vecClock.Get(x)) for every validator index x (full counted loop), with vecClock = dagi.GetMergedHighestBefore(event.ID()) and y = validators.GetIdx(event.Creator()), and selfParentSeqs[x] gets the same value only under the selfEvent parameter; Matrix.Row(i) is buffer[i*columns:(i+1)*columns] (polynomial identity) and NewMatrix sizes the buffer rows*cols; recacheState pairs Row(subject)[i] with GetWeightByIdx(i) for the same observer i over all observers, sorts by seq strictly descending, takes wmedian.Of(pairs, validators.Quorum()) of the freshly filled and sorted slice and stores its seq at globalMedianSeqs[subject]; wmedian.Of visits its values in slice order from the first (range, or for i := 0; i < len(values); i++), accumulates the current element's Weight() from zero and returns the current element exactly on the first accumulated weight >= stop, nothing else returns; the per-subject median computation, the store of the median, the strategy replacement and dirty = true may each live in a private helper method called on the same receiver (the helper's parameter is bound to the caller's loop index; a helper counts as the store/assignment it performs on every path, and derived state may be written by a helper only if all its call sites are in recacheState); weightedSeq.Weight returns its weight field. seqOf returns Seq() unless IsForkDetected(), then the constant MaxUint32/2-1 = 2^31-2, and go/constant confirms sentinel >= K-1 where K is the constant of basiccheck's `Seq >= K` rejection (K = MaxInt32-1, so admissible Seq <= 2^31-3 < sentinel). GetMetricOf sums (from zero, += over the full validator loop) diffMetricFn called with, under the parameter names of DiffMetricFn, median = globalMedianSeqs[i], current = selfParentSeqs[i], update = seqOf(dagi.GetMergedHighestBefore(id).Get(i)), validatorIdx = i. NOT decided: numeric equality of the stored median with the definition over all inputs (it follows from the decided shape by the descending-prefix argument, which is not machine-checked), overflow of the Metric sum, staleness of a SearchStrategy value kept by a caller across ProcessEvent, mutation of the slices handed out by GetGlobalMatrix/GetSelfParentSeqs/GetGlobalMedianSeqs by callers, and that vecClock sequences of processed events respect the basiccheck bound (assumed).",
 		[]string{"only events accepted by eventcheck/basiccheck reach ProcessEvent (C13 bound on Seq)", "sort.Slice sorts by the given less function; pos.Validators.Quorum/GetIdx/GetWeightByIdx/Len are as documented (C11/C12)",
 			"callers do not write through the slices returned by the indexer's getters", "the indexer is used from one goroutine"},
 		runC20)
@@ -535,15 +535,9 @@ func c20Reads(c *core.Ctx) {
 		if len(reads) == 0 {
 			continue
 		}
-		recache := core.PointSet(core.Points(f.CallsTo(c20Recache))...)
-		clean := c19Edges(f, c20BoolFact(f, c20Dirty, false))
-		var dirtying []core.Point
-		dirtying = append(dirtying, c20DirtySetSites(f)...)
-		for _, s := range c20Stores(f) {
-			if s.Field != c20Dirty && !c20Derived[s.Field] {
-				dirtying = append(dirtying, s.Pt)
-			}
-		}
+		// the state is fresh after recacheState(), after a helper on the same receiver that ensures freshness
+		// on each of its paths (an extracted `if h.dirty { h.recacheState() }`), or over the dirty == false edge;
+		// a private helper that reads derived state may rely on each of its call sites being fresh (c20CleanAt)
 		for _, sel := range reads {
 			n++
 			fld := short(fieldNameOf(f, sel))
@@ -556,22 +550,16 @@ func c20Reads(c *core.Ctx) {
 				c.Undecided(who+"|read of "+fld+" in a closure", "T4", sel.Pos(), "derived state is read inside a function literal: the dirty check cannot be related to the time the closure runs")
 				continue
 			}
-			path, found := core.PathQuery{F: f, From: f.Entry(), Target: core.PointSet(pt), Avoid: recache, AvoidEdge: clean}.Find()
-			if pt == f.Entry() {
-				found = true
-			}
-			okAfter := true
-			for _, d := range dirtying {
-				if d == pt {
-					continue
-				}
-				if p2, fnd := (core.PathQuery{F: f, From: d, FromAfter: true, Target: core.PointSet(pt), Avoid: recache, AvoidEdge: clean}).Find(); fnd {
-					okAfter = false
-					path = p2
+			okClean, wf, path := c20CleanAt(c.P, f, pt, 2)
+			where := ""
+			if wf != nil {
+				where = wf.DescribePath(path)
+				if wf != f {
+					where += " (in " + short(wf.Name) + ", which calls " + who + ")"
 				}
 			}
-			c.Check(!found && okAfter, who+"|read of "+fld+" after recache-or-clean", "T4 GuardedBy / T2 Dominates", sel.Pos(),
-				"the read is reached only after recacheState() ran or over the dirty == false edge", fld+" can be read while dirty (no recacheState on the path): values computed from an older matrix are returned; path "+f.DescribePath(path))
+			c.Check(okClean, who+"|read of "+fld+" after recache-or-clean", "T4 GuardedBy / T2 Dominates", sel.Pos(),
+				"the read is reached only after recacheState() ran or over the dirty == false edge", fld+" can be read while dirty (no recacheState on the path): values computed from an older matrix are returned; path "+where)
 		}
 	}
 	c.ExpectAtLeast("reads of derived state outside recacheState", n, 3)
@@ -1186,12 +1174,30 @@ func c20SliceIteration(c *core.Ctx, f *core.FuncInfo, vals *types.Var, what stri
 		default:
 			return true
 		}
-		cand, ok := core.IterationOf(f, n.(ast.Stmt), func(e ast.Expr) ast.Expr {
+		resolve := func(e ast.Expr) ast.Expr {
 			if varOf(f, e) == vals {
 				return ast.Unparen(e) // the slice variable itself, not its defining expression
 			}
 			return c19Resolve(f, e, core.Point{})
-		})
+		}
+		cand, ok := core.IterationOf(f, n.(ast.Stmt), resolve)
+		if fs, isFor := n.(*ast.ForStmt); !ok && isFor && fs.Cond != nil {
+			// `for i := 0; i < len(vals) && <stop condition>; i++`: still an iteration over a prefix of vals in
+			// slice order; the bound is the conjunct that compares the index
+			for _, ft := range core.Decompose(fs.Cond, true) {
+				if !ft.Truth || ft.Expr == fs.Cond {
+					continue
+				}
+				cp := *fs
+				cp.Cond = ft.Expr
+				if c2, ok2 := core.IterationOf(f, &cp, resolve); ok2 && c2.Coll != nil && varOf(f, c2.Coll) == vals {
+					c2.Stmt = fs
+					c2.Head, c2.Done = f.LoopOf(fs)
+					cand, ok = c2, true
+					break
+				}
+			}
+		}
 		if !ok || cand.Coll == nil || varOf(f, cand.Coll) != vals {
 			return true
 		}
@@ -1295,12 +1301,73 @@ func c20WMedian(c *core.Ctx) {
 	rets := f.ReturnPoints()
 	c.ExpectAtLeast("returns of wmedian.Of", len(rets), 1)
 	into := c19IntoHead(head)
+	bodyEntry := core.Point{B: head.Succs[0], I: 0}
+	// single-exit form: the element is kept in a result variable inside the loop and returned after it.
+	// resultVar decides that v is such a variable: nil before the loop, assigned only the current element,
+	// only after the += and over curWeight >= stop, and once it is assigned no further weight is added
+	// (the loop is left, or continues only over v == nil, which cannot hold then: the element's Weight()
+	// was called, so it is not nil).
+	var resStores []core.Point
+	resultVar := func(v *types.Var) ([]core.Point, bool) {
+		if v == nil || v == pVals || v == pStop || !c19Within(f.Body, v.Pos()) {
+			return nil, false
+		}
+		n, addr := c19AssignCount(f, v)
+		as := assignsToVar(f, v)
+		if addr || n != len(as) {
+			return nil, false
+		}
+		var stores []core.Point
+		for _, a := range as {
+			if !c19Within(loop, a.Stmt.Pos()) {
+				zero := a.RHS == nil
+				if zero {
+					_, zero = a.Stmt.(*ast.ValueSpec)
+				} else {
+					zero = core.IsNil(f.Info(), a.RHS)
+				}
+				if !zero || a.Stmt.Pos() > loop.Pos() {
+					return nil, false
+				}
+				continue
+			}
+			if a.RHS == nil || a.Tok != token.ASSIGN || !curAt(a.RHS, a.Pt) {
+				return nil, false
+			}
+			if _, early := (core.PathQuery{F: f, From: bodyEntry, Target: core.PointSet(a.Pt), Avoid: core.PointSet(adds[0].Pt), AvoidEdge: into}).Find(); early {
+				return nil, false
+			}
+			if g, _ := c19GuardedBetween(f, adds[0].Pt, a.Pt, reached); !g {
+				return nil, false
+			}
+			stores = append(stores, a.Pt)
+		}
+		for _, s := range stores {
+			if _, more := (core.PathQuery{F: f, From: s, FromAfter: true, Target: core.PointSet(adds[0].Pt), AvoidEdge: c19Edges(f, varNilFact(f, v, true))}).Find(); more {
+				return nil, false
+			}
+		}
+		return stores, len(stores) > 0
+	}
 	for _, rp := range rets {
 		r := rp.Node().(*ast.ReturnStmt)
+		if len(r.Results) == 1 && !c19Within(loop, r.Pos()) {
+			if v := varOf(f, r.Results[0]); v != nil {
+				stores, okVar := resultVar(v)
+				c.Check(okVar, "returns the current element", "provenance", r.Pos(), "the result variable holds the element at which the threshold was reached (stored over curWeight >= stop, nothing is added afterwards)", "Of returns a variable that is not exactly the first element at which the accumulated weight reached stop")
+				if okVar {
+					resStores = append(resStores, stores...)
+					// returned only when it was stored: a path without a store reaches the return only over v != nil, which cannot hold
+					path, unset := core.PathQuery{F: f, From: f.Entry(), Target: core.PointSet(rp), Avoid: core.PointSet(stores...), AvoidEdge: c19Edges(f, varNilFact(f, v, false))}.Find()
+					c.Check(!unset, "returns only when the accumulated weight (including this element) reached stop", "T4 GuardedBy (normalised comparison)", r.Pos(), "the return is reached only after the element was stored over curWeight >= stop (or over result != nil)", "Of can return without any element having reached stop (nil or stale result instead of the panic); path "+f.DescribePath(path))
+				}
+				continue
+			}
+		}
 		okV := len(r.Results) == 1 && curAt(r.Results[0], rp) && c19Within(loop, r.Pos())
 		c.Check(okV, "returns the current element", "provenance", r.Pos(), "the result is the element at which the threshold was reached", "Of returns something other than the element of the current iteration")
 		// within the iteration: add first, then the return only over cur >= stop
-		path, found := core.PathQuery{F: f, From: core.Point{B: head.Succs[0], I: 0}, Target: core.PointSet(rp), Avoid: core.PointSet(adds[0].Pt), AvoidEdge: into}.Find()
+		path, found := core.PathQuery{F: f, From: bodyEntry, Target: core.PointSet(rp), Avoid: core.PointSet(adds[0].Pt), AvoidEdge: into}.Find()
 		ok2, w2 := c19GuardedBetween(f, adds[0].Pt, rp, reached)
 		if !found && !ok2 {
 			path = w2
@@ -1308,7 +1375,8 @@ func c20WMedian(c *core.Ctx) {
 		c.Check(!found && ok2, "returns only when the accumulated weight (including this element) reached stop", "T4 GuardedBy (normalised comparison)", r.Pos(), "the return follows the += and is reached only over curWeight >= stop", "the return is not guarded by curWeight >= stop evaluated after adding the current element's weight: the median is taken at a different prefix weight than the threshold (too high if it fires early, too low with a strict comparison); path "+f.DescribePath(path))
 	}
 	// the first element reaching the threshold is returned: continuing the loop requires cur < stop
-	path, found := core.PathQuery{F: f, From: adds[0].Pt, FromAfter: true, Target: func(p core.Point) bool { return p.B == head }, AvoidEdge: c19Edges(f, notReached), TargetExit: true, Avoid: core.PointSet(rets...)}.Find()
+	// (a store into the result variable of the single-exit form ends the search like a return: nothing is added after it)
+	path, found := core.PathQuery{F: f, From: adds[0].Pt, FromAfter: true, Target: func(p core.Point) bool { return p.B == head }, AvoidEdge: c19Edges(f, notReached), TargetExit: true, Avoid: core.PointSet(append(append([]core.Point(nil), rets...), resStores...)...)}.Find()
 	if found && len(path) > 0 {
 		// reaching a return is fine (handled above); only the way back to the loop head counts
 		lastPt := path[len(path)-1]
@@ -1414,79 +1482,4 @@ func c20Fork(c *core.Ctx) {
 // ---------------------------------------------------------------------------
 // GetMetricOf
 
-func c20Metric(c *core.Ctx) {
-	f := c.Fn(c20QiT + ".GetMetricOf")
-	pID := f.Param(0)
-	c.Need(pID != nil, "GetMetricOf(id)")
-	calls := f.CallsTo(c20DiffFn)
-	c.Need(len(calls) == 1, "one diffMetricFn call in GetMetricOf")
-	cs := calls[0]
-	if sel, ok := ast.Unparen(cs.Call.Fun).(*ast.SelectorExpr); !ok || varOf(f, sel.X) != f.Recv() {
-		c.Undecided("diffMetricFn receiver", "provenance", cs.Pos(), "diffMetricFn is not called on the receiver")
-	}
-	// parameter names of the function type
-	fv := c.P.Field(c20DiffFn)
-	sig, _ := fv.Type().Underlying().(*types.Signature)
-	c.Need(sig != nil && sig.Params().Len() == len(cs.Call.Args) && sig.Params().Len() == 4, "DiffMetricFn has four parameters")
-	loop, _ := enclosingLoop(f, cs.Pos()).(*ast.ForStmt)
-	ctr, full := c20FullLoop(f, loop, func(e ast.Expr) bool { return c20IsValLen(f, e) })
-	c.Check(full && c20EveryIteration(f, loop, cs.Pt), "metric sums over every validator", "T2 (loop) + normalised bound", cs.Pos(), "diffMetricFn is evaluated once for each i in 0..validators.Len()-1", "the metric leaves out validators (loop bound, break or continue)")
-	isID := func(e ast.Expr) bool { return varOf(f, e) == pID }
-	seen := map[string]bool{}
-	for i := 0; i < 4; i++ {
-		name := sig.Params().At(i).Name()
-		arg := cs.Call.Args[i]
-		var ok bool
-		var want string
-		switch name {
-		case "median":
-			ok, want = c20FieldAt(f, arg, cs.Pt, c20Medians, ctr), "globalMedianSeqs[i]"
-		case "current":
-			ok, want = c20FieldAt(f, arg, cs.Pt, c20Self, ctr), "selfParentSeqs[i]"
-		case "update":
-			ok, want = c20SeqOfVec(f, arg, cs.Pt, ctr, isID), "seqOf(dagi.GetMergedHighestBefore(id).Get(i))"
-		case "validatorIdx":
-			ok, want = ctr != nil && c20VarAt(f, arg) == ctr, "i"
-		default:
-			c.Undecided("DiffMetricFn parameter "+name, "provenance", cs.Pos(), "DiffMetricFn has a parameter name the rule has no role for")
-			continue
-		}
-		seen[name] = true
-		c.Check(ok, "argument `"+name+"` has the provenance its name states", "provenance", cs.Pos(), name+" = "+want, "diffMetricFn's `"+name+"` argument is not "+want+": the diff function is applied to the wrong quantity (arguments swapped or taken for another validator)")
-	}
-	c.ExpectAtLeast("named roles of DiffMetricFn", len(seen), 4)
-	// sum: metric += call, from zero, returned
-	var acc *types.Var
-	for _, a := range assignments(f) {
-		if a.Tok == token.ADD_ASSIGN && ast.Unparen(a.RHS) == ast.Expr(cs.Call) {
-			acc = varOf(f, a.LHS)
-		}
-	}
-	okSum := acc != nil
-	if okSum {
-		for _, a := range assignsToVar(f, acc) {
-			if a.Tok == token.ADD_ASSIGN && ast.Unparen(a.RHS) == ast.Expr(cs.Call) {
-				continue
-			}
-			zero := a.RHS == nil
-			if zero {
-				_, zero = a.Stmt.(*ast.ValueSpec)
-			} else {
-				zero = core.IsConstInt(f.Info(), a.RHS, 0)
-			}
-			if !zero || (loop != nil && c19Within(loop, a.Stmt.Pos())) {
-				okSum = false
-			}
-		}
-		done, _ := loopDone(f, loop)
-		for _, rp := range f.ReturnPoints() {
-			r := rp.Node().(*ast.ReturnStmt)
-			if len(r.Results) != 1 || varOf(f, r.Results[0]) != acc || done == nil {
-				okSum = false
-			} else if ok, _ := mustPassBlockBefore(f, done, rp); !ok {
-				okSum = false
-			}
-		}
-	}
-	c.Check(okSum, "metric is the sum of the diffs", "provenance", f.Pos(), "an accumulator starting at 0 is increased by each diffMetricFn result and returned after the loop", "the returned metric is not the sum over validators of diffMetricFn (overwritten, not zero-initialised, or returned early)")
-}
+// c20Metric lives in c20_metric.go (inlined view: the per-validator diff may be computed in a helper).
